@@ -1,8 +1,33 @@
+//! Node-level harness (second part): ephemeral streams over a harness-owned gossip manager actor,
+//! sync metrics aggregation, persisted stream cursors and Node API header extensions.
+//!
+//! C16 ephemeral messages authentic and unique per publish, C17 ephemeral subscription never
+//! stalls on invalid messages, C40 sync metrics count bytes once, C07 (persisted part) cursors
+//! only move forward and only for their own topic, C02 (Node extensions part) header encoding
+//! round-trips and is deterministic.
+//!
+//! `p2panda-core/test_utils` is enabled in this build: `Timestamp::now()` reads the thread-local
+//! `mock_instant` clock (0 in every thread unless set) — C16 uses it as the wall-clock fault
+//! injector.
+
+mod c02;
+mod c07;
+mod c16;
+mod c17;
+mod c40;
+mod probe;
+mod wire;
+
 use vh_common::Args;
 
 fn main() {
     let args = Args::parse();
     match args.prop.as_str() {
-        other => panic!("vh-node2 does not serve {other} yet"),
+        "C02" => c02::run(&args),
+        "C07" => c07::run(&args),
+        "C16" => c16::run(&args),
+        "C17" => c17::run(&args),
+        "C40" => c40::run(&args),
+        other => panic!("vh-node2 does not serve {other}"),
     }
 }
